@@ -79,6 +79,7 @@ pub fn framing_tree() -> TreeSpec {
         TreeSpec::leaf("QWG", H_QW0 + 6),
         TreeSpec::branch("BR", vec![TreeSpec::dleaf("BQ", H_BQ), TreeSpec::leaf("BE", H_BE)]),
         TreeSpec::leaf("*CQ", H_Q1),
+        TreeSpec::leaf("*CE", H_EV),
     ])
 }
 
@@ -139,6 +140,8 @@ pub fn kinds(all: bool) -> Vec<Kind> {
         Kind { text: "qhh?", resp: Some("LVL1:LVL2 \"q\"\"q\""), needs_br: false, writes_nothing: false },
         Kind { text: ":BR:BQ?", resp: Some("ABC,0"), needs_br: false, writes_nothing: false },
         Kind { text: "BE", resp: None, needs_br: true, writes_nothing: false },
+        // a common command in event form: contributes nothing, wherever it stands between queries
+        Kind { text: "*CE", resp: None, needs_br: false, writes_nothing: false },
     ];
     if all {
         v.extend([
